@@ -164,6 +164,10 @@ def source_strategy(draw, path, depth=0):
         src[draw(st.sampled_from(["unknown_key", "zz_typo", "Number"]))] = draw(junk)
     elif u == 1:
         src["_private"] = draw(junk)
+    elif u == 2:
+        # an unknown key that is not a string (YAML "7:", "1.5:", "true:", "~:"); kept as a marker because JSON object
+        # keys are strings - check_sections() turns it into the real key
+        src["~nonstr"] = draw(st.sampled_from([["int", 7], ["float", 1.5], ["bool", True], ["none", None]]))
     return src
 
 
@@ -336,7 +340,7 @@ def check_result(path, res, where, base=None):
             check_entry(v, res[k], "%s.%s" % (where, k))
     if "__allow_others__" not in spec:
         for k in res:
-            if isinstance(k, str) and k not in spec and not k.startswith("_"):
+            if k not in spec and not (isinstance(k, str) and k.startswith("_")):
                 raise Bad("%s: unknown key %r was accepted by section %s" % (where, k, path))
 
 
@@ -360,6 +364,11 @@ def check_sections(case):
     src = copy.deepcopy(source)
     classes = []
     nontrivial = False
+    if isinstance(src, dict) and "~nonstr" in src:
+        kind, key = src.pop("~nonstr")
+        src[key] = "junk"
+        classes.append("unknown-key-not-a-string:" + kind)
+        nontrivial = True
     for k, v in source.items():
         if k in spec and not isinstance(spec[k], dict) and spec[k] != "ignore" and not k.startswith("_"):
             val = split_validator(spec[k][1])[0]
@@ -380,7 +389,7 @@ def check_sections(case):
         classes.append("accepted")
         try:
             check_result(path, res, path)
-            for k in source:
+            for k in src:
                 if k not in res:
                     raise Bad("provided key %r was dropped" % (k,))
         except Bad as e:
